@@ -325,6 +325,8 @@ func main() {
 		}
 	}
 
+	bigLevel(o)
+
 	connLevel(o)
 	tcpLevel(o)
 
